@@ -21,8 +21,15 @@ def strip_ty(t):
 
 
 def ty_is(tystr, adt_path):
-    t = strip_ty(tystr)
-    return adt_path == t or adt_path.endswith("::" + t)
+    """type strings use rustc's display paths (crate-relative for local types, shortest visible path for
+    re-exported foreign ones); ADT paths are canonical: equal if the display segments are a subsequence of
+    the canonical ones ending in the same name (and starting in the same crate when qualified)"""
+    t = strip_ty(tystr).split("::")
+    a = adt_path.split("::")
+    if t[-1] != a[-1]:
+        return False
+    it = iter(a)
+    return all(seg in it for seg in t)
 
 
 def ty_mentions(tystr, names):
